@@ -725,6 +725,10 @@ class Engine:
         b = BUILTIN_METHODS.get((trait, meth))
         if b: return ('builtin', b)
         if head in BITS and meth in INT_METHODS: return ('builtin', bi_int_method)
+        if head in BITS and meth == 'next_power_of_two': return ('builtin', bi_next_power_of_two)
+        if head in BITS and meth == 'checked_next_power_of_two': return ('builtin', bi_checked_next_power_of_two)
+        if trait == 'PartialOrd' and meth in ('lt', 'le', 'gt', 'ge'): return ('builtin', bi_derived_ord)
+        if head in BITS and meth == 'is_power_of_two': return ('builtin', bi_is_power_of_two)
         # generic type parameter: dispatch on runtime type of first arg
         if args and (len(head) <= 2 or head in ('Self',)):
             rh = self.runtime_head(args[0], st)
@@ -1035,6 +1039,11 @@ def bi_vec_reserve(eng, st, args, dest, ret_bb, callee=''):
     eng.store_ref(st, r, newv)
     return ('fork', [(z3.Not(ov.v), ('value', UNIT)), (ov.v, ('panic', 'capacity overflow'))])
 
+def bi_vec_shrink(eng, st, args, dest, ret_bb, callee=''):
+    r = args[0]; v = vec_of(eng, st, r)
+    eng.store_ref(st, r, VecV(v.len, v.len, v.el))
+    return ('value', UNIT)
+
 def bi_opq_clone(eng, st, args, dest, ret_bb, callee=''):
     v = args[0]
     while isinstance(v, Ref): v = eng.deref(st, v)
@@ -1168,6 +1177,60 @@ def bi_int_method(eng, st, args, dest, ret_bb, callee=''):
         return ('value', eng.binop({'add': 'Add', 'sub': 'Sub', 'mul': 'Mul'}[meth[9:]], a, args[1]))
     raise Unsupported('integer method ' + callee)
 
+def _flatten_scalars(eng, st, v, out):
+    while isinstance(v, Ref): v = eng.deref(st, v)
+    if isinstance(v, S): out.append(v)
+    elif isinstance(v, Agg):
+        for x in v.f: _flatten_scalars(eng, st, x, out)
+    else: raise Unsupported('ordering comparison of %r' % (v,))
+
+def bi_derived_ord(eng, st, args, dest, ret_bb, callee=''):
+    """lt / le / gt / ge of a type whose PartialOrd is derived (lexicographic over the fields in declaration order) or of a scalar"""
+    meth = strip_generics(callee).split('::')[-1]
+    a, b = args
+    va = a
+    while isinstance(va, Ref): va = eng.deref(st, va)
+    if isinstance(va, Agg):
+        impls = eng.prog.methods.get((va.ty, 'partial_cmp'), [])
+        for (t, f) in impls:
+            m_ = re.search(r'<impl at ([^:]+):(\d+):(\d+)', f.name)
+            if m_ and eng.prog.src_line(m_.group(1), int(m_.group(2)))[int(m_.group(3)) - 1:].startswith('impl'):
+                raise Unsupported('hand-written PartialOrd for %s: lt/le/gt/ge need its partial_cmp (not modelled)' % va.ty)
+    xs, ys = [], []
+    _flatten_scalars(eng, st, a, xs); _flatten_scalars(eng, st, b, ys)
+    if len(xs) != len(ys): raise Unsupported('ordering comparison of different shapes')
+    lt = S(False, 'bool'); eq = S(True, 'bool')
+    for x, y in zip(xs, ys):
+        lt = eng.binop('BitOr', lt, eng.binop('BitAnd', eq, eng.binop('Lt', x, y)))
+        eq = eng.binop('BitAnd', eq, eng.binop('Eq', x, y))
+    gt = eng.binop('BitAnd', eng.unop('Not', lt), eng.unop('Not', eq))
+    res = {'lt': lt, 'le': eng.binop('BitOr', lt, eq), 'gt': gt, 'ge': eng.unop('Not', lt)}[meth]
+    return ('value', res)
+
+def bi_checked_next_power_of_two(eng, st, args, dest, ret_bb, callee=''):
+    r = bi_next_power_of_two(eng, st, args, dest, ret_bb, callee)[1]
+    ok = eng.binop('Ne', r, S(0, r.ty))
+    d = S(1 if ok.v else 0, 'isize') if ok.conc() else S(z3.If(ok.v, z3.BitVecVal(1, 64), z3.BitVecVal(0, 64)), 'isize')
+    return ('value', En('Option', d, {0: (), 1: (r,)}))
+
+def bi_next_power_of_two(eng, st, args, dest, ret_bb, callee=''):
+    a = args[0]
+    if a.conc():
+        v = 1
+        while v < a.v: v <<= 1
+        return ('value', S(v, a.ty))
+    x = bv(a.v, a.ty); b = BITS[a.ty]
+    acc = z3.BitVecVal(0, b)          # overflow (v > 2^(b-1)) wraps to 0 in release builds; debug builds panic - not modelled, callers stay far below
+    for i in range(b - 1, -1, -1):
+        acc = z3.If(z3.ULE(x, z3.BitVecVal(1 << i, b)), z3.BitVecVal(1 << i, b), acc)
+    return ('value', S(acc, a.ty))
+
+def bi_is_power_of_two(eng, st, args, dest, ret_bb, callee=''):
+    a = args[0]
+    if a.conc(): return ('value', S(a.v > 0 and (a.v & (a.v - 1)) == 0, 'bool'))
+    x = bv(a.v, a.ty)
+    return ('value', S(z3.And(x != 0, (x & (x - 1)) == 0), 'bool'))
+
 INT_METHODS = {'overflowing_add', 'overflowing_sub', 'overflowing_mul', 'wrapping_add', 'wrapping_sub', 'wrapping_mul', 'wrapping_neg'}
 
 def bi_default_zero(eng, st, args, dest, ret_bb, callee=''):
@@ -1233,7 +1296,7 @@ BUILTIN_METHODS = {
     ('Vec', 'index'): bi_vec_index, ('Vec', 'index_mut'): bi_vec_index, ('Vec', 'len'): bi_vec_len, ('Vec', 'push'): bi_vec_push,
     ('Vec', 'new'): bi_vec_new, ('Vec', 'clear'): bi_vec_clear, ('Vec', 'deref'): bi_identity, ('Vec', 'deref_mut'): bi_identity,
     ('Vec', 'as_slice'): bi_identity, ('Vec', 'with_capacity'): bi_vec_with_capacity, ('Vec', 'capacity'): bi_vec_capacity,
-    ('Vec', 'reserve'): bi_vec_reserve, ('Vec', 'pop'): bi_vec_pop, ('SliceIter', 'next'): bi_sliceiter_next, ('SliceIter', 'next_back'): bi_sliceiter_next_back,
+    ('Vec', 'reserve'): bi_vec_reserve, ('Vec', 'reserve_exact'): bi_vec_reserve, ('Vec', 'shrink_to_fit'): bi_vec_shrink, ('Vec', 'pop'): bi_vec_pop, ('SliceIter', 'next'): bi_sliceiter_next, ('SliceIter', 'next_back'): bi_sliceiter_next_back,
     ('SliceIter', 'len'): bi_sliceiter_len, ('mem', 'drop'): bi_drop_fn,
     ('Box', 'new_uninit'): bi_box_new_uninit, ('boxed', 'box_assume_init_into_vec_unsafe'): bi_box_into_vec, ('Opq', 'clone'): bi_opq_clone, ('Opq', 'eq'): bi_opq_eq,
     ('[Node<T>]', 'get'): bi_slice_get, ('[Node<T>]', 'get_mut'): bi_slice_get,
